@@ -381,6 +381,10 @@ struct StreamSpec {
 	tolerant: bool,
 	/// (callback, seconds) for seek_by: relative to the position the handle reports at that moment
 	seek_bys: Vec<(usize, f64)>,
+	/// every seek_to is accompanied, in the same callback interval, by a seek_by of this many seconds written
+	/// before (true) or after (false) it: both sound types read seek_by first and seek_to second, so the seek_to
+	/// target is where playback continues - exactly one landing, and nothing is applied late
+	with_by: Option<(bool, f64)>,
 }
 
 #[derive(Default)]
@@ -397,6 +401,7 @@ struct StreamOut {
 	resyncs: Vec<(u64, usize)>,
 	resync_target: Option<(usize, usize)>,
 	spurious_eof: bool,
+	combined: u64,
 }
 
 /// follower: candidates (next expected index relative to the slice, number of seek landings consumed)
@@ -514,9 +519,14 @@ fn stream_case(bytes: Arc<Vec<u8>>, loaded: &StaticSoundData, spec: &StreamSpec)
 			out.inconclusive = true;
 			break;
 		}
+		let mut deferred: Vec<(f64, Vec<usize>)> = vec![];
 		for (at, secs, lands) in &spec.seeks {
 			if *at == cb {
 				if dec.ended() && !spec.late {
+					continue;
+				}
+				if spec.with_by.is_some() {
+					deferred.push((*secs, lands.clone()));
 					continue;
 				}
 				h.seek_to(*secs);
@@ -524,6 +534,23 @@ fn stream_case(bytes: Arc<Vec<u8>>, loaded: &StaticSoundData, spec: &StreamSpec)
 			}
 		}
 		sound.on_start_processing();
+		// a seek_to together with a seek_by: written while the decoder thread is parked on the full ring, after this callback's
+		// position was published (the value the seek_by will be relative to), so the relative target is known to lie in the data
+		for (secs, lands) in deferred {
+			let by = spec.with_by.filter(|(_, amount)| {
+				let t = (h.position() + amount) * sr as f64;
+				t >= 4.0 && t + 4.0 < len as f64
+			});
+			if let Some((true, amount)) = by {
+				h.seek_by(amount);
+			}
+			h.seek_to(secs);
+			if let Some((false, amount)) = by {
+				h.seek_by(amount);
+			}
+			out.combined += by.is_some() as u64;
+			pending.push(lands);
+		}
 		// (issued after this callback's position was published: that is the value the decoder thread will read)
 		for (at, amount) in &spec.seek_bys {
 			if *at == cb && !dec.ended() {
@@ -667,7 +694,9 @@ fn gen_stream_spec(r: &mut Rng, n: usize, sr: u32) -> StreamSpec {
 		let at = seeks.last().map(|s| s.0 + 1 + r.usize_in(0, 3)).unwrap_or(r.usize_in(1, (len / chunk / 3).max(2)));
 		seek_bys.push((at, r.f64_in(-0.3, 0.6) * len as f64 / sr as f64));
 	}
-	StreamSpec { slice, start, lp, chunk, seeks, max_callbacks, late: false, tolerant: false, seek_bys }
+	// (only without a loop and a slice: the relative target must stay inside the data whatever it is relative to)
+	let with_by = if lp.is_none() && r.chance(0.3) { Some((r.chance(0.5), r.f64_in(-0.2, 0.2) * len as f64 / sr as f64)) } else { None };
+	StreamSpec { slice, start, lp, chunk, seeks, max_callbacks, late: false, tolerant: false, seek_bys, with_by }
 }
 
 const LATE_SEEK_KEY: &str = "C18.streaming_seek_ignored_after_decoder_reached_end";
@@ -850,7 +879,7 @@ fn asset_case(r: &mut Rng, path: &str, with_seeks: bool, ogg_known: bool) -> Res
 		}
 	}
 	let start = if r.chance(0.5) { 0 } else { r.usize_in(0, n / 2) };
-	let spec = StreamSpec { slice: None, start, lp: None, chunk, seeks, max_callbacks: (n + 3 * 17000) / chunk + 8, late: false, tolerant: false, seek_bys: vec![] };
+	let spec = StreamSpec { slice: None, start, lp: None, chunk, seeks, max_callbacks: (n + 3 * 17000) / chunk + 8, late: false, tolerant: false, seek_bys: vec![], with_by: None };
 	let ctxs = format!("[asset {}, start {}, seeks {:?}]", path, start, spec.seeks);
 	match stream_case(bytes.clone(), &loaded, &spec) {
 		Ok(o) => Ok((o, false)),
@@ -877,6 +906,7 @@ pub fn run(ctx: &mut Ctx) {
 	let mut streamed_frames = 0u64;
 	let mut gaps = 0u64;
 	let mut landed = 0u64;
+	let mut combined = 0u64;
 	let mut late_known = 0u64;
 	let mut rounding_known = 0u64;
 	let mut inconclusive = 0u64;
@@ -908,6 +938,7 @@ pub fn run(ctx: &mut Ctx) {
 					let o = stream_case(bytes, &loaded, &spec).map_err(|e| format!("{} [{:?}, {} frames, {:?}]", e, wspec, n, spec))?;
 					streamed_frames += o.frames;
 					gaps += o.gaps;
+					combined += o.combined;
 					landed += o.landed.len() as u64;
 					if o.inconclusive {
 						inconclusive += 1;
@@ -922,7 +953,7 @@ pub fn run(ctx: &mut Ctx) {
 					let loaded = StaticSoundData::from_cursor(Cursor::new(ArcBytes(bytes.clone()))).map_err(|e| format!("coded file does not load: {}", e))?;
 					let k = r.usize_in(0, n / 2);
 					let cb = if n > 17000 { (n - 16000) / 512 + 1 } else { r.usize_in(0, 3) };
-					let spec = StreamSpec { slice: None, start: 0, lp: None, chunk: 512, seeks: vec![(cb, (k as f64 + 0.25) / wspec.rate as f64, vec![k])], max_callbacks: (2 * n + 3 * 17000) / 512 + 8, late: true, tolerant: false, seek_bys: vec![] };
+					let spec = StreamSpec { slice: None, start: 0, lp: None, chunk: 512, seeks: vec![(cb, (k as f64 + 0.25) / wspec.rate as f64, vec![k])], max_callbacks: (2 * n + 3 * 17000) / 512 + 8, late: true, tolerant: false, seek_bys: vec![], with_by: None };
 					let o = stream_case(bytes, &loaded, &spec).map_err(|e| format!("{} [{:?}, {} frames, {:?}]", e, wspec, n, spec))?;
 					if o.ignored_late_seeks > 0 {
 						return Err(LATE_SEEK_KEY.into());
@@ -939,7 +970,7 @@ pub fn run(ctx: &mut Ctx) {
 					let k = r.usize_in(25000, 38000);
 					let secs = (k as f64 + *r.pick(&[0.75, 0.5, 0.999, 0.0])) / wspec.rate as f64;
 					let st = static_landing(&loaded, secs).ok_or("static landing not observed")?;
-					let spec = StreamSpec { slice: None, start: 0, lp: None, chunk: 1024, seeks: vec![(1, secs, vec![k - 1, k, k + 1])], max_callbacks: (n + 3 * 17000) / 1024 + 8, late: false, tolerant: false, seek_bys: vec![] };
+					let spec = StreamSpec { slice: None, start: 0, lp: None, chunk: 1024, seeks: vec![(1, secs, vec![k - 1, k, k + 1])], max_callbacks: (n + 3 * 17000) / 1024 + 8, late: false, tolerant: false, seek_bys: vec![], with_by: None };
 					let o = stream_case(bytes, &loaded, &spec)?;
 					match o.landed.first() {
 						Some(l) if *l == st => Ok(4 << 16),
@@ -1009,6 +1040,7 @@ pub fn run(ctx: &mut Ctx) {
 	ctx.count("streamed_frames_matched_to_file_frames", streamed_frames);
 	ctx.count("silent_output_frames_while_waiting_or_after_end", gaps);
 	ctx.count("seek_landings_observed", landed);
+	ctx.count("seek_to_with_seek_by_in_the_same_interval", combined);
 	ctx.count("corrupt_files_rejected_with_error", xs.errors);
 	ctx.count("corrupt_files_loaded_as_prefix_of_independent_reading", xs.ok_prefix);
 	ctx.count("corrupt_files_loaded_not_judged", xs.ok_unjudged);
@@ -1044,7 +1076,7 @@ pub fn confirm(key: &str) -> Option<Option<String>> {
 			let (bytes, wspec) = coded_wav(&mut r, n);
 			let bytes = Arc::new(bytes);
 			let loaded = StaticSoundData::from_cursor(Cursor::new(ArcBytes(bytes.clone()))).ok()?;
-			let spec = StreamSpec { slice: None, start: 0, lp: None, chunk: 512, seeks: vec![(10, 100.25 / wspec.rate as f64, vec![100])], max_callbacks: 200, late: true, tolerant: false, seek_bys: vec![] };
+			let spec = StreamSpec { slice: None, start: 0, lp: None, chunk: 512, seeks: vec![(10, 100.25 / wspec.rate as f64, vec![100])], max_callbacks: 200, late: true, tolerant: false, seek_bys: vec![], with_by: None };
 			Some(match stream_case(bytes, &loaded, &spec) {
 				Ok(o) if o.ignored_late_seeks > 0 => Some("seek_to issued after the decoder thread ended was ignored".into()),
 				Ok(_) => None,
@@ -1064,7 +1096,7 @@ pub fn confirm(key: &str) -> Option<Option<String>> {
 			let p = "/repo/crates/examples/assets/drums.ogg";
 			let bytes = Arc::new(std::fs::read(p).ok()?);
 			let loaded = StaticSoundData::from_cursor(Cursor::new(ArcBytes(bytes.clone()))).ok()?;
-			let spec = StreamSpec { slice: None, start: 12345, lp: None, chunk: 2048, seeks: vec![], max_callbacks: 20, late: false, tolerant: false, seek_bys: vec![] };
+			let spec = StreamSpec { slice: None, start: 12345, lp: None, chunk: 2048, seeks: vec![], max_callbacks: 20, late: false, tolerant: false, seek_bys: vec![], with_by: None };
 			Some(stream_case(bytes, &loaded, &spec).err().map(|e| format!("drums.ogg streamed from start position 12345: {}", e)))
 		}
 		ROUNDING_KEY => {
@@ -1074,7 +1106,7 @@ pub fn confirm(key: &str) -> Option<Option<String>> {
 			let loaded = StaticSoundData::from_cursor(Cursor::new(ArcBytes(bytes.clone()))).ok()?;
 			let secs = 30000.75 / wspec.rate as f64;
 			let st = static_landing(&loaded, secs)?;
-			let spec = StreamSpec { slice: None, start: 0, lp: None, chunk: 1024, seeks: vec![(1, secs, vec![29999, 30000, 30001])], max_callbacks: 80, late: false, tolerant: false, seek_bys: vec![] };
+			let spec = StreamSpec { slice: None, start: 0, lp: None, chunk: 1024, seeks: vec![(1, secs, vec![29999, 30000, 30001])], max_callbacks: 80, late: false, tolerant: false, seek_bys: vec![], with_by: None };
 			Some(match stream_case(bytes, &loaded, &spec) {
 				Ok(o) => match o.landed.first() {
 					Some(l) if *l != st => Some(format!("seek_to(30000.75 frames): static lands on {}, streaming on {}", st, l)),
